@@ -67,6 +67,29 @@ check('C12',
       'machine-checked proof in Coq (Q) + correspondence run + numerical oracle for values',
       'DESIGN.md 5 C12')
 
+check('C05',
+      'Coq theorems (Props/C05.v): over Q (axiom-free) the dispersion constant is 1/2.41e-4 (GENERATED literal), the delay of every '
+      'frequency of the band lies between the band-edge delays for either sign of DM, every sample retained by the crop '
+      '[ceil(-min(0,dtop,dbot)), N-ceil(max(0,dtop,dbot))) has its source inside the input for every frequency of the band, the front '
+      'crop is tight, and the crop is a slice whose start time advances by the front crop (C01); over R (Coquelicot) the chirp has unit '
+      'modulus, its phase has -delay(f) as derivative (group delay) and chirp(DM)*chirp(-DM) = 1. PARTIAL: the filtering ifft(fft z * H) '
+      'and the cropped two-pass round trip rest on scipy.fft = DFT and are checked numerically (independent complex128 filter with the '
+      'phase computed exactly and reduced mod 1; round trip within the sampled filter\'s leakage).',
+      'Trusted: Coq kernel + stdlib real-number axioms (sig_forall_dec, sig_not_dec, functional_extensionality_dep, classic) for the R '
+      'part; T2; scipy.fft/libm/astropy validated numerically; chirp tolerance 1.2e-7 + 8 pi 2^-50 |phase|.',
+      'machine-checked proof in Coq (Q and R) + correspondence run (exact phase/crop) + numerical oracle',
+      'DESIGN.md 5 C05')
+check('C06',
+      'Coq theorems (Props/C06.v, axiom-free, over Q): the f^-2 law with K = 1/2.41e-4 from the GENERATED literal, antisymmetry, '
+      'additivity along chains, sample_delay = delay*rate, round = nearest (half to even, monotone); for the incoherent model (rounded '
+      'delays, crop_before, per-channel CPython slices, stack, new start): every returned sample (k,i) has source k+d\'_i inside the '
+      'input, out[T,i] = in[T + d_i/rate, i] in absolute time, None start stays None; the needed monotonicity premise is proved for the '
+      'delays of every band with positive labels and either sign of DM.',
+      'Trusted: Coq kernel, T2, np.round = half-to-even, np.stack of unequal lengths raises; astropy unit arithmetic within 1e-13; cases '
+      'within float noise of a rounding tie are regenerated.',
+      'machine-checked proof in Coq (Q) with generated constant + correspondence run + source tracing monitor',
+      'DESIGN.md 5 C06')
+
 ALL = [f'C{i:02d}' for i in range(1, 21)]
 
 def main():
